@@ -342,6 +342,30 @@ theorem step_heap (ts : List (Tree T)) (op : Op E M V) (h : AllHeap ts) :
         simp only [Option.some.injEq] at hr; subst hr
         exact (h.set i (Heap_of_skel_eq (skel_collect I a) (h.get hti))).set j (Heap_of_skel_eq (skel_collect I b) (h.get htj))
       · cases hr
+  | insertTag i k v m p =>
+    simp only [stepM] at hr
+    split at hr
+    · rename_i t hti
+      simp only [Option.some.injEq] at hr; subst hr
+      exact h.set i (insertAt_heap I t k _ p (h.get hti))
+    · cases hr
+  | moveRoot i w j pos p =>
+    simp only [stepM] at hr
+    split at hr
+    · rename_i t u0 hti htj
+      have hx : Heap (if w = 0 then Tree.nil else t) := by
+        split
+        · trivial
+        · exact h.get hti
+      have h1 : AllHeap (ts.set i (if w = 0 then Tree.nil else t)) := h.set i hx
+      split at hr
+      · simp only [Option.some.injEq] at hr; subst hr; exact h
+      · split at hr
+        · rename_i u huj
+          simp only [Option.some.injEq] at hr; subst hr
+          exact h1.set j (insertAt_heap I u pos _ p (h1.get huj))
+        · cases hr
+    · cases hr
 
 theorem run_heap (ops : List (Op E M V)) (ts : List (Tree T)) (h : AllHeap ts) :
     ∀ r : List (Tree T) × List (Obs E G), runM I ts ops = some r → AllHeap r.1 := by
